@@ -87,6 +87,16 @@ def site_stream(mmv, pkg, shapes=((0, 0), (1, 3))):
                     j[pn] = {"k": v}
                 cases.append({"target": sn, "input": j, "kind": "site", "mmty": "(TRef %s)" % V.q(sn),
                               "site": "%s.%s:%s:alt%d=%s" % (sn, pn, kind, ai, short(a))})
+        if kind == "prop":
+            for ai, a in enumerate(al):
+                if a["kind"] == "array":
+                    lo, hi = mmv.value(a["element"], 2, 0, 0), mmv.value(a["element"], 2, 1, 4)
+                    if lo != hi:
+                        for order in ([lo, hi], [hi, lo]):
+                            j = dict(base)
+                            j[pn] = order
+                            cases.append({"target": sn, "input": j, "kind": "site-mixed", "mmty": "(TRef %s)" % V.q(sn),
+                                          "site": "%s.%s:prop:alt%d=%s:mixed-shapes" % (sn, pn, ai, short(a))})
         if kind in ("elem", "elem-in-or"):
             het = [vs[0] for vs in vals_by_alt if vs]
             if len(het) > 1:
@@ -104,6 +114,14 @@ def site_stream(mmv, pkg, shapes=((0, 0), (1, 3))):
             for v in vals:
                 cases.append({"target": names[1], "input": {"jsonrpc": "2.0", "id": 1, "result": v}, "kind": "site-result",
                               "mmty": "(resp_ty %s)" % V.q(r["method"]), "site": "%s.result:alt%d=%s" % (names[1], ai, short(a))})
+        # arrays whose elements are valid for the SAME alternative but look different (minimal next to near-maximal)
+        for ai, a in enumerate(alts(mmv, r["result"])):
+            if a["kind"] == "array":
+                lo, hi = mmv.value(a["element"], 2, 0, 0), mmv.value(a["element"], 2, 1, 4)
+                if lo != hi:
+                    for order in ([lo, hi], [hi, lo]):
+                        cases.append({"target": names[1], "input": {"jsonrpc": "2.0", "id": 1, "result": order}, "kind": "site-mixed",
+                                      "mmty": "(resp_ty %s)" % V.q(r["method"]), "site": "%s.result:alt%d=%s:mixed-shapes" % (names[1], ai, short(a))})
         # heterogeneous result arrays (an `or` of arrays or an array of `or`)
         arrs = [a for a in alts(mmv, r["result"]) if a["kind"] == "array"]
         if len(arrs) > 1:
